@@ -106,6 +106,11 @@ pub trait Property: Sync + Send {
     fn shrink_iters(&self) -> u32 {
         200
     }
+    /// the check calls the code under test in-process: keep the case being executed on disk so that a fatal
+    /// crash of the harness process (stack overflow, abort) can be attributed to it by ./check
+    fn inprocess(&self) -> bool {
+        false
+    }
 }
 
 #[derive(Default)]
@@ -233,6 +238,27 @@ fn trunc(s: &str, n: usize) -> String {
     }
 }
 
+thread_local! {
+    static INFLIGHT_SLOT: std::cell::Cell<usize> = std::cell::Cell::new(usize::MAX);
+}
+static INFLIGHT_NEXT: std::sync::atomic::AtomicUsize = std::sync::atomic::AtomicUsize::new(0);
+
+fn exec_guarded<P: Property>(prop: &P, case: &P::Case, ctx: &Ctx) -> Outcome {
+    if prop.inprocess() {
+        let slot = INFLIGHT_SLOT.with(|s| {
+            if s.get() == usize::MAX {
+                s.set(INFLIGHT_NEXT.fetch_add(1, Ordering::SeqCst));
+            }
+            s.get()
+        });
+        let dir = crate::s4run::scratch_root();
+        let _ = std::fs::create_dir_all(&dir);
+        let body = json!({"property": prop.id(), "seed": ctx.seed, "sig": "harness-crash", "msg": "the harness process died while executing this case in-process", "case": case});
+        let _ = std::fs::write(dir.join(format!("inflight-{}.json", slot)), serde_json::to_vec(&body).unwrap_or_default());
+    }
+    prop.exec(case, ctx)
+}
+
 /// Run a property; returns process exit code.
 pub fn run<P: Property>(prop: &P, tier: Tier, seed: u64, replay: Option<PathBuf>) -> i32 {
     let t0 = Instant::now();
@@ -250,7 +276,7 @@ pub fn run<P: Property>(prop: &P, tier: Tier, seed: u64, replay: Option<PathBuf>
                 return 2;
             }
         };
-        let o = prop.exec(&case, &ctx);
+        let o = exec_guarded(prop, &case, &ctx);
         match &o.verdict {
             Verdict::Fail { sig, msg } => {
                 if let Some(k) = known_match(&known, id, sig) {
@@ -300,7 +326,7 @@ pub fn run<P: Property>(prop: &P, tier: Tier, seed: u64, replay: Option<PathBuf>
             match load_case::<P::Case>(&f) {
                 Ok(case) => {
                     corpus_n += 1;
-                    let o = prop.exec(&case, &ctx);
+                    let o = exec_guarded(prop, &case, &ctx);
                     let mut st = stats.lock().unwrap();
                     handle(&o, &case, &format!("corpus {}", f.display()), &mut st);
                 }
@@ -322,7 +348,7 @@ pub fn run<P: Property>(prop: &P, tier: Tier, seed: u64, replay: Option<PathBuf>
                         break;
                     }
                     let (name, case) = &probes[i];
-                    let o = prop.exec(case, &ctx);
+                    let o = exec_guarded(prop, case, &ctx);
                     let mut st = stats.lock().unwrap();
                     handle(&o, case, &format!("probe {}", name), &mut st);
                 });
@@ -367,7 +393,7 @@ pub fn run<P: Property>(prop: &P, tier: Tier, seed: u64, replay: Option<PathBuf>
                         if !failed.get() && stop.load(Ordering::Relaxed) {
                             return Ok(());
                         }
-                        let o = prop.exec(&case, ctx);
+                        let o = exec_guarded(prop, &case, ctx);
                         if failed.get() {
                             // shrinking: only the verdict matters
                             return match &o.verdict {
